@@ -79,6 +79,15 @@ def make_prog(rng, base=None, opts=None):
             h = rng.choice(hosts)
             h["imports"].append(json.loads(json.dumps(rng.choice(h["imports"]))))
             prog["defect"] = "dup-set-direct+" + prog["defect"]
+    # a value expression wrapped in parentheses
+    if rng.random() < opts.get("paren_p", 0.15):
+        vs = [v for x in spec.all_sets(tree) for v in x["values"]]
+        if vs:
+            pick = rng.choice(vs)["id"]
+            for x in spec.all_sets(tree):
+                for v in x["values"]:
+                    if v["id"] == pick:
+                        v["paren"] = True
     # anonymous inline sets: wire.NewSet(...) written in place instead of a named variable
     if rng.random() < opts.get("inline_p", 0.2):
         count = {}
@@ -470,13 +479,13 @@ class Render:
         for v in s["values"]:
             t = v["out"]
             if self.types[t // 2]["kind"] == "iface":
-                out.append("wire.InterfaceValue(new(%s%s), %sNewImpl%d(\"val%d\"))" % (q, self.tn(t // 2), q, t // 2, v["id"]))
+                out.append("wire.InterfaceValue(new(%s%s), %s%sNewImpl%d(\"val%d\")%s)" % (q, self.tn(t // 2), "(" if v.get("paren") else "", q, t // 2, v["id"], ")" if v.get("paren") else ""))
                 v["_call"] = True
             else:
                 e = self.mkval(t, '"val%d"' % v["id"], pkg, fields_from_id=False)
                 if v.get("unexported"):
                     e = e[:-1] + ", hid: 1}"
-                out.append("wire.Value(%s)" % e)
+                out.append("wire.Value(%s)" % (("(" + e + ")") if v.get("paren") else e))
         for f in s["fields"]:
             par = f["parent"]
             out.append('wire.FieldsOf(new(%s%s%s), "%s")' % ("*" if par % 2 else "", q, self.tn(par // 2), f["name"]))
